@@ -4,6 +4,7 @@ import (
 	"fmt"
 	"go/token"
 	"go/types"
+	"sort"
 	"strings"
 
 	"golang.org/x/tools/go/ssa"
@@ -738,9 +739,76 @@ func (f *frame) abstraction(what string) {
 }
 
 func (f *frame) execGo(x *ssa.Go) {
-	// the spawned goroutine may run at any time: everything it can write is unknown from now on
-	f.abstraction("`go` statement: the whole heap is havoced at the spawn point and after every later call")
-	f.havocAll("go")
+	// The spawned goroutine may run at any time from now on: every heap array it can write becomes
+	// volatile (each later read yields an arbitrary value). What it can write is found by a dry run
+	// of its body (callees by contract / inlined like everywhere else); if the body contains a call
+	// that may write anything, everything becomes volatile.
+	c := f.c
+	var fn *ssa.Function
+	var bindings []Val
+	if !x.Call.IsInvoke() {
+		switch v := f.get(x.Call.Value).(type) {
+		case *Closure:
+			fn, bindings = v.Fn, v.Bindings
+		}
+	}
+	if fn == nil || fn.Blocks == nil || f.onStackClosure(fn) {
+		f.abstraction("`go` statement with unknown body: the whole heap is volatile afterwards")
+		c.volatileAll = true
+		f.havocAll("go")
+		return
+	}
+	dc := c.fork()
+	g := newFrame(dc, fn)
+	g.depth = f.depth + 1
+	g.freeVars = bindings
+	g.heap = dc.newEpoch()
+	start := g.heap.epoch
+	g.entry = g.heap.clone()
+	g.entryGuard = tTrue
+	g.callerPos = x.Pos()
+	for i, p := range fn.Params {
+		g.vals[p] = f.get(x.Call.Args[i])
+	}
+	c.eng.inlineStack = append(c.eng.inlineStack, fn)
+	g.runRegion(rpo(fn), nil, nil, nil)
+	c.eng.inlineStack = c.eng.inlineStack[:len(c.eng.inlineStack)-1]
+	wholesale := dc.volatileAll
+	for _, r := range g.rets {
+		if r.heap.epoch != start {
+			wholesale = true
+		}
+	}
+	if len(g.rets) == 0 && g.heap != nil && g.heap.epoch != start {
+		wholesale = true
+	}
+	for a := range dc.assumed {
+		c.assumed[a] = true
+	}
+	if wholesale {
+		f.abstraction("`go` statement whose body may write anything: the whole heap is volatile afterwards")
+		c.volatileAll = true
+		f.havocAll("go")
+		return
+	}
+	var ks []string
+	for k := range dc.writes {
+		if k != allocKey {
+			ks = append(ks, k)
+		}
+	}
+	for k := range dc.volatile {
+		if !c.volatile[k] {
+			ks = append(ks, k)
+		}
+	}
+	sort.Strings(ks)
+	for _, k := range ks {
+		c.volatile[k] = true
+		c.writes[k] = true
+		c.nonFresh[k] = true
+	}
+	f.abstraction(fmt.Sprintf("`go %s`: heap arrays it may write are volatile afterwards: %v", shortFn(fn), ks))
 }
 
 func (f *frame) havocAll(why string) {
@@ -775,12 +843,43 @@ func (f *frame) execSelect(x *ssa.Select) {
 		lo = intLit(-1)
 	}
 	c.assume(and(le(lo, idx), lt(idx, intLit(int64(len(x.States))))))
-	out := Tuple{idx, c.fresh(f.vname(x)+".recvok", SBool)}
-	for _, st := range x.States {
+	recvOk := c.fresh(f.vname(x)+".recvok", SBool)
+	out := Tuple{idx, recvOk}
+	for k, st := range x.States {
 		if st.Dir == types.RecvOnly {
 			et := types.Unalias(st.Chan.Type()).Underlying().(*types.Chan).Elem()
-			out = append(out, f.havocVal(et, f.vname(x)+".recv", f.heap))
+			v := f.havocVal(et, f.vname(x)+".recv", f.heap)
+			out = append(out, v)
+			f.recvAssumptions(st.Chan, v, et, and(f.guard, eq(idx, intLit(int64(k)))), recvOk)
 		}
 	}
 	f.vals[x] = out
+}
+
+// recvAssumptions applies the `recv CHAN:` clauses of the contract (assumed channel invariants).
+func (f *frame) recvAssumptions(ch ssa.Value, v Val, et types.Type, guard, ok Term) {
+	if !f.top || f.contract == nil || len(f.contract.Recvs) == 0 {
+		return
+	}
+	for _, rs := range f.contract.Recvs {
+		match := false
+		for _, dv := range f.debug[rs.Chan] {
+			if dv == ch {
+				match = true
+			}
+		}
+		if !match {
+			continue
+		}
+		env := f.pointEnv(f.heap)
+		env.vars["v"] = f.sval(v, et)
+		for _, cl := range rs.Assume {
+			f.c.assume(implies(and(guard, ok), f.evalClause(env, cl)))
+			f.c.assumed["assumed channel invariant (recv "+rs.Chan+"): "+cl.Text] = true
+		}
+		for _, cl := range rs.Closed {
+			f.c.assume(implies(and(guard, not(ok)), f.evalClause(env, cl)))
+			f.c.assumed["assumed when channel "+rs.Chan+" is closed and drained: "+cl.Text] = true
+		}
+	}
 }
